@@ -69,7 +69,7 @@ def facts(src, strip_comments, fn_body):
     fns = impl_fns(text)
     res = {"errors": errors, "fns": [], "sweeperRechecks": False, "sweeperCollectsFromIndex": False,
            "centralLazy": False, "expiredIsStrict": False, "ttlComparesStrict": False,
-           "ttlArms": [], "ttlLastMsFixed": False, "zsetOneCall": False, "pttlFloorsMillis": False, "snapshotReadsThroughGet": False}
+           "ttlArms": [], "ttlLastMsFixed": False, "zsetOneCall": False, "scriptClockFrozen": False, "pttlFloorsMillis": False, "snapshotReadsThroughGet": False}
     if not fns:
         errors.append("impl StorageEngine not found in storage/engine.rs")
         return res
@@ -147,8 +147,8 @@ def facts(src, strip_comments, fn_body):
     # value.rs: the comparison operators
     val = strip_comments(src("storage/value.rs"))
     ie = fn_body(val, "is_expired") or ""
-    res["expiredIsStrict"] = bool(re.search(r"Instant::now\(\)\s*>\s*expires_at", ie))
-    if not res["expiredIsStrict"] and not re.search(r"Instant::now\(\)\s*>=\s*expires_at", ie):
+    res["expiredIsStrict"] = bool(re.search(r"(Instant|clock)::now\(\)\s*>\s*expires_at", ie))
+    if not res["expiredIsStrict"] and not re.search(r"(Instant|clock)::now\(\)\s*>=\s*expires_at", ie):
         errors.append("ValueMetadata::is_expired comparison not recognised")
     tb = bodies.get("ttl", "")
     res["ttlComparesStrict"] = bool(re.search(r"if\s+expires_at\s*>\s*now", tb))
@@ -193,6 +193,32 @@ def facts(src, strip_comments, fn_body):
     res["zsetOneCall"] = bool(one)
     if not one and not per:
         errors.append("sorted-set write handlers (handle_zadd/zrem/zpopmin/zpopmax, execute_sorted_set) are neither all per-member loops nor all single storage calls")
+    # one script / one EXEC = one clock reading: storage::clock, frozen by EVAL / EVALSHA / EXEC, read by every expiry site
+    import os as _os
+    try:
+        clock = strip_comments(src("storage/clock.rs"))
+    except OSError:
+        clock = ""
+    lua_cmd = strip_comments(src("storage/commands/lua.rs"))
+    # the function that evaluates: handle_eval_with_publish since 2c7061f (handle_eval_with_db is its wrapper), else handle_eval_with_db
+    he = fn_body(lua_cmd, "handle_eval_with_publish") or fn_body(lua_cmd, "handle_eval_with_db") or ""
+    hx = fn_body(srv, "handle_exec") or ""
+    hsha = fn_body(srv, "handle_evalsha_command") or ""
+    sites = {
+        "clock.rs now/freeze": bool(re.search(r"pub fn now\(\)", clock) and re.search(r"pub fn freeze\(\)", clock) and "impl Drop for" in clock),
+        "is_expired": "clock::now()" in (fn_body(val, "is_expired") or "") and "Instant::now()" not in (fn_body(val, "is_expired") or ""),
+        "with_expiration": "clock::now()" in (fn_body(val, "with_expiration") or ""),
+        "set_expiration": "clock::now()" in (fn_body(val, "set_expiration") or "") and "Instant::now()" not in (fn_body(val, "set_expiration") or ""),
+        "set_string_nx_ex": "Instant::now()" not in bodies.get("set_string_nx_ex", ""),
+        "expire": "Instant::now()" not in bodies.get("expire", ""),
+        "ttl": "clock::now()" in bodies.get("ttl", "") and "Instant::now()" not in bodies.get("ttl", ""),
+        "sweeper": "clock::now()" in (sw or "") and "Instant::now()" not in (sw or ""),
+        "EVAL/EVALSHA freeze before eval": bool(re.search(r"clock::freeze\(\).*\.eval\(", he, re.S)) and bool(re.search(r"handle_eval_with_(?:db|publish)\(", hsha)),
+        "EXEC freeze": "clock::freeze()" in hx,
+    }
+    res["scriptClockFrozen"] = all(sites.values())
+    if any(sites[k] for k in sites if k not in ("set_string_nx_ex", "expire")) and not all(sites.values()):
+        errors.append("storage clock only partly in place: missing " + ", ".join(k for k, v_ in sites.items() if not v_))
     # rdb.rs: the snapshot reads every value through `get` (lazily checked)
     rdb = strip_comments(src("storage/rdb.rs"))
     reads = re.findall(r"storage\.(get|get_with_ttl)\(\s*db\w*\s*,\s*&key\s*\)", rdb)
@@ -271,6 +297,9 @@ def generate(src, strip_comments, fn_body, header):
     L.append("/-- ZADD / ZREM / ZPOPMIN / ZPOPMAX (server handlers and script executor) make ONE storage call per command")
     L.append("    (`zadd_many`, `zrem_many`, `zpop`): the deadline is tested once per command, not once per member -/")
     L.append("def zsetOneCall : Bool := %s" % lean_bool(f["zsetOneCall"]))
+    L.append("/-- every expiry site of the storage layer reads `storage::clock::now()`, and EVAL / EVALSHA (around `LuaEngine::eval`) and EXEC")
+    L.append("    (`handle_exec`) hold `storage::clock::freeze()`: one script / one transaction = one clock reading -/")
+    L.append("def scriptClockFrozen : Bool := %s" % lean_bool(f["scriptClockFrozen"]))
     L.append("/-- `pttl` is `duration.as_millis() as i64` -/")
     L.append("def pttlFloorsMillis : Bool := %s" % lean_bool(f["pttlFloorsMillis"]))
     L.append("/-- the RDB writer reads every value through `storage.get` / `storage.get_with_ttl`, both lazily checked -/")
